@@ -101,10 +101,23 @@ fn run_hist(args: &Args) {
                 .find_map(|t| t.strip_prefix("sqlite=").and_then(|m| m.parse::<u64>().ok()))
                 .unwrap_or(0);
             let name = f.file_name().unwrap().to_string_lossy().to_string();
-            todo.push((format!("# case corpus:{}#{} sqlite={}", name, ci, mask), nreps, mask, lines));
+            let group = hdr
+                .split_whitespace()
+                .find(|t| t.starts_with("group="))
+                .map(|g| format!(" {}", g))
+                .unwrap_or_default();
+            todo.push((format!("# case corpus:{}#{} sqlite={}{}", name, ci, mask, group), nreps, mask, lines));
         }
     }
-    if args.replay.is_none() {
+    if args.replay.is_none() && args.flags.iter().any(|f| f == "--conflicts") {
+        let mut rng = Rng::new(args.seed);
+        for i in 0..args.cases {
+            let mut crng = rng.fork();
+            for (tag, nreps, lines) in hist::gen_conflict_group(&mut crng) {
+                todo.push((format!("# case {}.{} seed={} sqlite=0 group={}", i, tag, args.seed, i), nreps, 0, lines));
+            }
+        }
+    } else if args.replay.is_none() {
         let mut rng = Rng::new(args.seed);
         for i in 0..args.cases {
             let mut crng = rng.fork();
